@@ -415,6 +415,18 @@ Section Out.
   Definition stdout_of (es : list event) : bytes := flat_map out_of es.
 End Out.
 
+(* concatenation without deep recursion (the extracted [app] is not tail-recursive and one
+   description can be megabytes long); used by the case runner; equal to [stdout_of]: Proofs.Walk.stdout_tr_eq *)
+Definition cat_tr (l : list bytes) : bytes :=
+  rev_append (fold_left (fun acc x => rev_append x acc) l []) [].
+Definition out_of_tr (body : bytes -> bytes -> bytes) (argv0 : bytes) (e : event) : bytes :=
+  match e with
+  | Report p c => cat_tr [p; [58; 32]; body p c]
+  | e => out_of body argv0 e
+  end.
+Definition stdout_tr (body : bytes -> bytes -> bytes) (argv0 : bytes) (es : list event) : bytes :=
+  cat_tr (map (out_of_tr body argv0) es).
+
 (* the description text, by the dispatcher model of C07 and the renderer of C20; an
    Inspect that panics is C01's subject and prints nothing here *)
 Definition dispatch_body (sniff : bytes -> bytes -> bool) (parse : bytes -> bytes -> result info)
